@@ -41,3 +41,52 @@ def gen_unicode():
     body += _emit('lowerRanges', 'code points c with chr(c).islower()', _ranges(str.islower))
     body += 'end Pybtex.Gen\n'
     return 'Unicode.lean', body
+
+
+def _case_runs(fn):
+    """Single-character, context-free case mapping `fn` (str.lower / str.upper on one character) as arithmetic runs
+    (first, last, step, image of first): code point first + i*step (<= last) maps to image + i*step."""
+    pairs = []
+    multi = []
+    for cp in range(0x110000):
+        if 0xD800 <= cp <= 0xDFFF:
+            continue
+        r = fn(chr(cp))
+        if len(r) != 1:
+            multi.append(cp)
+        elif r != chr(cp):
+            pairs.append((cp, ord(r)))
+    runs = []
+    i = 0
+    while i < len(pairs):
+        s, t = pairs[i]
+        best = (i, 1)
+        for step in (1, 2):
+            j = i
+            while j + 1 < len(pairs) and pairs[j + 1][0] == pairs[j][0] + step and pairs[j + 1][1] - pairs[j + 1][0] == t - s:
+                j += 1
+            if j > best[0]:
+                best = (j, step)
+        j, step = best
+        runs.append((s, pairs[j][0], step, t))
+        i = j + 1
+    return runs, multi, len(pairs)
+
+
+@tables.generator
+def gen_unicode_case():
+    body = 'namespace Pybtex.Gen\n\n'
+    runs, multi, n = _case_runs(str.lower)
+    body += ('/- `chr(c).lower()` of the running interpreter for the %d code points it changes into ONE other character, as %d runs\n'
+             '   (first, last, step, image of first).  Not in the table (outside the modelled domain): code points whose lower-case form\n'
+             '   is not a single character (`lowerMulti`), and U+03A3 whose form inside a string depends on its context (final sigma);\n'
+             '   U+03A3 alone maps to U+03C3 and is listed here as such. -/\n' % (n, len(runs)))
+    groups = [runs[i:i + 16] for i in range(0, len(runs), 16)]
+    for k, g in enumerate(groups):
+        body += 'def lowerRunsGroup%d : Nat × Nat × List (Nat × Nat × Nat × Nat) := (%d, %d, [%s])\n' % (
+            k, g[0][0], max(r[1] for r in g), ', '.join('(%d, %d, %d, %d)' % r for r in g))
+    body += ('/-- the runs in groups of 16, each with the interval (first, last) of code points its runs lie in -/\n'
+             'def lowerRuns : List (Nat × Nat × List (Nat × Nat × Nat × Nat)) :=\n  [%s]\n\n' % ', '.join('lowerRunsGroup%d' % k for k in range(len(groups))))
+    body += '/-- code points whose `.lower()` is not one character -/\ndef lowerMulti : List Nat := [%s]\n\n' % ', '.join(map(str, multi))
+    body += 'end Pybtex.Gen\n'
+    return 'UnicodeCase.lean', body
